@@ -527,6 +527,12 @@ def support_position_of_same_vector(P, f, kind, bb):
         return False
     vec = {tuple(st for st in o if st[0] not in ("iter", "adapt")) for o in f.origins_of_operand(c.args[0])}
     for o in io:
+        if ("adapt", "enumerate") in o and o[-1] == ("field", 0) and any(st[0] == "next" for st in o):
+            # the counter of `v.iter().enumerate()` over the same vector
+            k = o.index(("adapt", "enumerate"))
+            if {tuple(st for st in o[:k] if st[0] not in ("iter", "adapt"))} != vec:
+                return False
+            continue
         if not (o[0][0] == "call" and o[0][3].endswith("::position") and o[1:] == (("variant", "Some"), ("field", 0))):
             return False
         pc = f.call_at[o[0][2]]
